@@ -573,6 +573,14 @@ fn process_tags(
                     context.swap_prev_element(prev),
                 )
             });
+            // A failed attempt leaves no trace in the environment: what a container
+            // (a loop, say) assigned before one of its elements failed is undone, for
+            // its later siblings and for its own retry alike.
+            let env_before = if !is_retry && matches!(t, Tag::Compound(..)) {
+                Some(context.environment())
+            } else {
+                None
+            };
             let gen_result = t.generate_events(context);
             if let Some((env, prev)) = later_env {
                 if gen_result.is_ok() {
@@ -646,6 +654,9 @@ fn process_tags(
                         } else {
                             element_errors.insert(idx.clone(), (el, err));
                         }
+                    }
+                    if let Some(env) = env_before {
+                        context.swap_environment(env);
                     }
                     environments
                         .entry(idx.clone())
